@@ -11,6 +11,9 @@ PORT_NAME_POOLS = [
     ["0", "0DV", "1", "2", "2D", "3", "3D", "4"],
     ["0", "1", "10", "11", "2", "2D", "5", "9"],
     ["A", "B", "0", "1DV", "7", "8", "12", "3"],
+    # multi-character names that are concatenations of one-character names (zen3 '12' vs spec '0123', zen4 '13' vs
+    # '135'): a string-form port specification must not be read as naming them
+    ["0", "1", "2", "12", "3", "23", "13", "01"],
 ]
 
 
